@@ -13,7 +13,7 @@ import (
 //	@now<+|-><seconds>[/<fractional digits>[/<form>]]
 //
 // forms: Z (default) | offset (+00:00) | offset2 (+02:00, same instant) | nozone | dateonly |
-// comma (fraction after a comma) | lowerz | space (blank instead of T) | month13 | now (the word)
+// comma (fraction after a comma) | lowerz | space (blank instead of T) | month13 | now (the word) | fractext, fraczz, fracjunk (six or more fractional digits followed by something that is no zone)
 func RenderTime(s string, now time.Time) string {
 	if !strings.HasPrefix(s, "@now") {
 		return s
@@ -55,6 +55,13 @@ func RenderTime(s string, now time.Time) string {
 		return t.Format("2006") + "-13-" + t.Format("02T15:04:05") + "Z"
 	case "now":
 		return "now"
+	case "fractext":
+		// six fractional digits, then words: what a reader that cuts a long fraction short must still look at
+		return base + ".000000 or so"
+	case "fraczz":
+		return base + ".000000ZZ"
+	case "fracjunk":
+		return base + ".123456789abcZ"
 	}
 	return base + fr + "Z"
 }
